@@ -384,6 +384,21 @@ def step (env : Env) (s : State) : Ev → State × Out
     | .recorded g res => (finish s r i (some g) (some res), .done res.failed)
     | _ => (s, .bad)
 
+/-- `driveUpdater` run on its own: the previous fingerprint it reads is `prev`;
+    `d0 … d3` say whether the context is already cancelled at the
+    GetUpdateOperations / Fetch / Parse / store call.  Returns how the call
+    ended and the value of `newFP` handed to RecordUpdaterStatus. -/
+def drive (u : Upd) (prev : Fp) (d0 d1 d2 d3 : Bool) : Res × Fp :=
+  if u.getOk d0 then
+    match u.fetch prev d1 with
+    | (.err, fp) => (.fetchErr, fp)
+    | (.unchanged, fp) => (.unchanged, fp)
+    | (.ok, fp) =>
+      match u.parse d2 with
+      | none => (.parseErr, fp)
+      | some p => if u.storeOk d3 then (.stored (mkCall u fp p), fp) else (.storeErr, fp)
+  else (.getErr, 0)
+
 /-- Store calls made by the worker of (run, instance), newest first. -/
 def callsOf (s : State) (r i : Nat) : List Call :=
   (s.calls.filter fun c => c.run == r && c.inst == i).map (·.call)
